@@ -1149,7 +1149,9 @@ func wrapAny(val Node, targetType *Type) Node {
 			return v
 		case *BinaryExpression:
 			v.Left = wrapAny(v.Left, targetType)
-			v.Right = wrapAny(v.Right, targetType)
+			if v.Op == OP_PLUS { // the right operand of a repetition is its count
+				v.Right = wrapAny(v.Right, targetType)
+			}
 			v.T = targetType
 			return v
 		case *GroupExpression:
